@@ -270,6 +270,129 @@ def write (hash : List Entry → Bytes) (ed : Ed) : WriteRes := writeAt hash { e
 def cursorWrite (hash : List Entry → Bytes) (ed : Ed) (pfx : Path) : WriteRes :=
   writeAt hash { ed with pathBuf := pfx } true
 
+/-! ### `write_at_pathbuf` literally: the loop over the `parents` / `children` stacks
+
+The recursion `writeTree` above is what the theorems are about. `writeLoop` transcribes the real
+loop statement by statement (two vectors, indices into `parents`, `children.pop().or_else(||
+parents.pop())`, the binary search for the child's entry in its parent, `retain`, `out`). The
+driver runs BOTH and reports a mismatch, so every correspondence case checks real code = loop
+and loop = recursion. -/
+
+structure LItem where
+  parent : Option Nat
+  path : Path
+  tree : List Entry
+  deriving Repr
+
+structure LState where
+  parents : List LItem
+  children : List LItem
+  cache : Assoc Path (List Entry)
+  store : Assoc Bytes (List Entry)
+  calls : Nat
+  deriving Repr
+
+/-- `for entry in &tree.entries { if entry.mode.is_tree() { if let Some(sub) = self.trees.remove(..) {..} } }` -/
+def scanChildren (path : Path) (nextIdx : Nat) :
+    List Entry → Assoc Path (List Entry) × List LItem → Assoc Path (List Entry) × List LItem
+  | [], acc => acc
+  | e :: es, acc =>
+    if e.isTree then
+      match aget (path ++ [e.name]) acc.1 with
+      | some sub => scanChildren path nextIdx es
+          (aerase (path ++ [e.name]) acc.1, acc.2 ++ [⟨some nextIdx, path ++ [e.name], sub⟩])
+      | none => scanChildren path nextIdx es acc
+    else scanChildren path nextIdx es acc
+
+inductive LRes where
+  | done (id : Bytes) (calls : Nat) (trees : Assoc Path (List Entry)) (store : Assoc Bytes (List Entry))
+  | panic
+  | fuel
+  deriving Repr
+
+def popLast (l : List α) : Option (α × List α) :=
+  match l.getLast? with
+  | some x => some (x, l.dropLast)
+  | none => none
+
+/-- the `while let Some(..) = children.pop().or_else(|| parents.pop())` loop -/
+def writeLoop (hash : List Entry → Bytes) (fromCursor : Bool) : Nat → LState → LRes
+  | 0, _ => .fuel
+  | fuel + 1, st =>
+    let popped : Option (LItem × List LItem × List LItem) :=
+      match popLast st.children with
+      | some (it, cs) => some (it, st.parents, cs)
+      | none =>
+        match popLast st.parents with
+        | some (it, ps) => some (it, ps, st.children)
+        | none => none
+    match popped with
+    | none => .panic   -- unreachable!("we exit as soon as everything is consumed")
+    | some (it, parents, children) =>
+      let sc := scanChildren it.path parents.length it.tree (st.cache, [])
+      if sc.2.isEmpty then
+        -- all_entries_unchanged_or_written
+        let tree := it.tree.filter (fun e => e.oid != nullId)
+        match it.parent with
+        | some idx =>
+          match parents[idx]? with
+          | none => .panic   -- expect("always present, pointing towards zero")
+          | some par =>
+            let name := it.path.getLast?.getD []
+            match binarySearchBy par.tree (fun e => cmpEntryWithName e name true) with
+            | .found ei =>
+              if tree.isEmpty then
+                writeLoop hash fromCursor fuel
+                  { st with parents := parents.set idx { par with tree := par.tree.eraseIdx ei },
+                            children := children, cache := sc.1 }
+              else
+                let id := hash tree
+                match par.tree[ei]? with
+                | none => .panic
+                | some pe =>
+                  writeLoop hash fromCursor fuel
+                    { parents := parents.set idx { par with tree := par.tree.set ei { pe with oid := id } },
+                      children := children, cache := sc.1,
+                      store := aset id tree st.store, calls := st.calls + 1 }
+            | _ => .panic   -- expect("the parent always knows us by name")
+        | none =>
+          if parents.isEmpty then
+            let id := hash tree
+            .done id (st.calls + 1)
+              (if fromCursor then aset it.path tree sc.1 else [(it.path, tree)])
+              (aset id tree st.store)
+          else if !tree.isEmpty then
+            writeLoop hash fromCursor fuel
+              { parents := parents, children := children, cache := sc.1,
+                store := aset (hash tree) tree st.store, calls := st.calls + 1 }
+          else writeLoop hash fromCursor fuel { st with parents := parents, children := children, cache := sc.1 }
+      else
+        writeLoop hash fromCursor fuel
+          { st with parents := parents ++ [it], children := children ++ sc.2, cache := sc.1 }
+
+/-- `write_at_pathbuf` as the loop -/
+def writeAtLoop (hash : List Entry → Bytes) (ed : Ed) (fromCursor : Bool) : LRes :=
+  match aget ed.pathBuf ed.trees with
+  | none => .panic
+  | some root =>
+    let cache := aerase ed.pathBuf ed.trees
+    writeLoop hash fromCursor (4 * cache.length + 8)
+      ⟨[⟨none, ed.pathBuf, root⟩], [], cache, ed.store, 0⟩
+
+/-- same content, whatever the order of insertion -/
+def sameAssoc [DecidableEq κ] [BEq β] (a b : Assoc κ β) : Bool :=
+  a.all (fun kv => match aget kv.1 b with | some v => v == kv.2 | none => false) &&
+  b.all (fun kv => match aget kv.1 a with | some v => v == kv.2 | none => false)
+
+/-- the result of the recursion, unless the literal loop disagrees with it -/
+def writeChecked (hash : List Entry → Bytes) (ed : Ed) (fromCursor : Bool) : Option WriteRes :=
+  match writeAt hash ed fromCursor, writeAtLoop hash ed fromCursor with
+  | .panic, .panic => some .panic
+  | .ok id calls ed', .done id2 calls2 trees2 store2 =>
+    if id == id2 && calls == calls2 && sameAssoc ed'.trees trees2 && sameAssoc ed'.store store2
+    then some (.ok id calls ed') else none
+  | _, _ => none
+
 /-! ### driver -/
 
 /-- the driver's stand-in for SHA-1: an injective encoding (never 20 bytes long, never null), with
@@ -368,7 +491,10 @@ def runOps : Nat → Run → List String → Option Run
       let k ← k.toNat?
       let (p, rest) ← takePath k rest
       runOps fuel (r.edit (remove r.ed p) none) rest
-    | "W" :: rest => runOps fuel (r.wrote (write encHash r.ed) none) rest
+    | "W" :: rest =>
+      match writeChecked encHash { r.ed with pathBuf := [] } false with
+      | some res => runOps fuel (r.wrote res none) rest
+      | none => runOps fuel (r.push "LOOP-REC-MISMATCH") rest
     | "C" :: k :: rest => do
       let k ← k.toNat?
       let (p, rest) ← takePath k rest
@@ -394,7 +520,10 @@ def runOps : Nat → Run → List String → Option Run
     | "cW" :: rest =>
       match r.cursor with
       | none => runOps fuel (r.push "nocursor") rest
-      | some pfx => runOps fuel (r.wrote (cursorWrite encHash r.ed pfx) (some pfx)) rest
+      | some pfx =>
+        match writeChecked encHash { r.ed with pathBuf := pfx } true with
+        | some res => runOps fuel (r.wrote res (some pfx)) rest
+        | none => runOps fuel (r.push "LOOP-REC-MISMATCH") rest
     | _ => none
 
 def handle? : List String → Option String
